@@ -248,8 +248,12 @@ Definition r_wedged (v : variant) (s : rstate) : Prop :=
                               Fixed: closing is checked AGAIN under the lock.
      Run(ctx)      129-182    if !running.CAS(false,true) { return ErrStarted }              [CRunCas]
                               defer close(stopped)
-                              if len(mngr.runners) > 0 { mngr.Add(close-runner) }
-                              go func() { errCh <- mngr.Run(ctx) }()                          [CSetup]
+                              if len(mngr.runners) > 0 {              (read WITHOUT the lock)         [CSetupLen]
+                                 mngr.Add(close-runner) }
+                              go func() { errCh <- mngr.Run(ctx) }()                          [CSetup: the Add
+                                 of the close-runner and the inner manager's CompareAndSwap; nothing but an Add
+                                 of the same manager can tell them apart, and that Add either lands before
+                                 both - between CSetupLen and CSetup - or is refused]
                               rErr := <-errCh            (the inner manager's events: [CInner e])
                               mngr.lock.Lock(); closing.Store(true)
                               for each closer: go func() { errCh <- closer() }                [CClosing]
@@ -280,6 +284,7 @@ Record cproc := mkc { c_cl : cl; c_st : cst; c_starts : nat }.
 Inductive cpc :=
 | CIdle
 | CStarted
+| CDecided (w : bool)      (* Run has read len(mngr.runners) > 0 = w; close-runner not yet added *)
 | CWaitInner
 | CCollect (n i : nat) (errs : list err)
 | CDone (errs : list err).
@@ -320,6 +325,7 @@ Record cstate := mkcs {
 
 Inductive cev :=
 | CRunCas
+| CSetupLen
 | CSetup
 | CInner (e : revt)
 | CClosing
@@ -399,18 +405,21 @@ Definition step_c (v : variant) (s : cstate) (e : cev) : option cstate :=
       else Some (mkcs (inner s) true (c_closing s) (c_stopped s) (closers s) CStarted (c_procs s)
                       (fch_closed s) (timer_fired s) (fired_early s) (fatal_count s) (tie s)
                       (reterr s) (addcl s) (closes s) (run_rejected s) (cadds s))
+  | CSetupLen =>
+      match c_pc s with
+      | CStarted => Some (w_pc s (CDecided (match r_runners (inner s) with [] => false | _ => true end)))
+      | _ => None
+      end
   | CSetup =>
       match c_pc s with
-      | CStarted =>
+      | CDecided w =>
           let i0 := inner s in
-          let i1 := match r_runners i0 with
-                    | [] => Some i0
-                    | _ :: _ =>
-                        match step_r v i0 (RAddCheck CloseRunner) with
-                        | Some x => step_r v x (RAddAppend (length (r_adds i0)))
-                        | None => None
-                        end
-                    end in
+          let i1 := if w
+                    then match step_r v i0 (RAddCheck CloseRunner) with
+                         | Some x => step_r v x (RAddAppend (length (r_adds i0)))
+                         | None => None
+                         end
+                    else Some i0 in
           match i1 with
           | Some x => match step_r v x RRunCas with
                       | Some y => Some (w_pc (w_inner s y) CWaitInner)
@@ -598,10 +607,18 @@ Definition decidedb (o : option cst) : bool :=
 
 (* AddCloser passes its test, Run shuts down and returns, AddCloser appends and returns nil. *)
 Definition addcloser_race : list cev :=
-  [CRunCas; CSetup; CInner RSpawn; CAddCloserCheck (Some 7%Z);
+  [CRunCas; CSetupLen; CSetup; CInner RSpawn; CAddCloserCheck (Some 7%Z);
    CInner (RRunnerReturn 0); CInner (RCollect 0); CInner (RRunnerReturn 1); CInner (RCollect 1);
    CInner RRunReturn; CClosing; CRunReturn; CAddCloserAppend 0].
 
 (* Add passes its test, Run takes its snapshot and starts the goroutines, Add appends. *)
 Definition add_race : list revt :=
   [RAddCheck (Free None); RRunCas; RSpawn; RAddAppend 0; RRunnerReturn 0; RCollect 0].
+
+(* A third check-then-act gap, found while modelling RunnerCloserManager.Add (present in the
+   current tree): Add passes its tests on a manager that has no runner yet, Run reads
+   len(mngr.runners) = 0 and decides that no close-runner is needed, Add appends, the inner
+   manager starts - with one runner and nobody listening on closeCh. *)
+Definition add_watcher_race : list cev :=
+  [CAddCheck (OnCancel None); CRunCas; CSetupLen; CAddAppend 0; CSetup; CInner RSpawn; CCloseBegin;
+   CCloseStep 0].
